@@ -133,9 +133,16 @@ def effNospace (i : FmtInput) : SuffixMatcher :=
 def wantsNospace (ns : SuffixMatcher) (v : Str) : Bool :=
   ns.elem '*' || (match v.getLast? with | some c => ns.elem c | none => false)
 
+/-- tab, CR and LF are dropped by design: for a value ending in one of them either reading of
+    "the value ends with a no-space character" is accepted -/
+def nospaceOk (ns : SuffixMatcher) (v : Str) (expressed : Bool) : Bool :=
+  wantsNospace ns v == expressed || wantsNospace ns (dropTCL v) == expressed
+
 /-- the candidates that must be shown: those extending the typed word (all when unfiltered) -/
 def specCands (i : FmtInput) : List RawValue :=
-  if i.env.unfiltered then i.values else i.values.filter (fun v => matchHasPrefix i.env.ci v.value i.word)
+  let vs := if i.env.unfiltered then i.values else i.values.filter (fun v => matchHasPrefix i.env.ci v.value i.word)
+  -- bash: a candidate equal to the part of the word bash keeps leaves nothing to insert (outside the claim)
+  if i.sh == .bash then vs.filter (fun v => !(dropTCL (Str.trimPrefix v.value i.env.bashPrefix)).isEmpty) else vs
 
 def isErrDisplay (d : Str) : Bool :=
   Str.hasPrefix d errS && (d.drop 3).all Char.isDigit
@@ -265,8 +272,7 @@ def checkC02 (i : FmtInput) (cands : List RawValue) (obs : List Obs) (commonStep
     else obs.filterMap (fun o =>
       match o.word with
       | some w =>
-        let w := if i.sh == .ion then Str.trimSuffix w [' '] else w
-        if matchHasPrefix ci w (dropTCL seg) then none
+        if matchHasPrefix ci w (dropTCL seg) || (i.sh == .ion && matchHasPrefix ci (Str.trimSuffix w [' ']) (dropTCL seg)) then none
         else some { prop := "C02", code := s!"{i.sh.name}:not_extending", detail := showStr w ++ " typed " ++ showStr seg }
       | none => none)
   let complete : List Failure :=
@@ -333,9 +339,9 @@ def checkC05 (i : FmtInput) (cands : List RawValue) (dec : Decoded) (obs : List 
           -- find the candidate this record stands for
           let isErr := isErrObs i cands o
           let want := isErr || cands.any (fun c => (match o.word with | some w => dropTCL w == dropTCL (insertValue i c.value) | none => false)
-                                                      && wantsNospace ns (insertValue i c.value))
+                                                      && wantsNospace ns (insertValue i c.value) && wantsNospace ns (dropTCL (insertValue i c.value)))
           let wantNot := !isErr && cands.all (fun c => !(match o.word with | some w => dropTCL w == dropTCL (insertValue i c.value) | none => false)
-                                                      || !wantsNospace ns (insertValue i c.value))
+                                                      || (!wantsNospace ns (insertValue i c.value) && !wantsNospace ns (dropTCL (insertValue i c.value))))
           if g && wantNot then [{ prop := "C05", code := "bash:nospace_not_wanted", detail := showStr o.text }]
           else if !g && want then [{ prop := "C05", code := "bash:space_not_wanted", detail := showStr o.text }]
           else []
@@ -360,8 +366,8 @@ def checkC05 (i : FmtInput) (cands : List RawValue) (dec : Decoded) (obs : List 
         if sh == .ion then
           -- verbatim format: text = value ++ blank iff a space is wanted
           let ok := isErr || cands.any (fun c =>
-            o.text == dropTCL c.value ++ (if wantsNospace ns c.value then [] else [' ']) ||
-            dropTCL o.text == dropTCL c.value ++ (if wantsNospace ns c.value then [] else [' ']))
+            dropTCL o.text == dropTCL c.value ++ (if wantsNospace ns c.value then [] else [' ']) ||
+            dropTCL o.text == dropTCL c.value ++ (if wantsNospace ns (dropTCL c.value) then [] else [' ']))
           if ok then none else some { prop := "C05", code := "ion:space", detail := showStr o.text }
         else none
       | some nsp =>
@@ -373,7 +379,7 @@ def checkC05 (i : FmtInput) (cands : List RawValue) (dec : Decoded) (obs : List 
           if isErr then (if nsp then none else some { prop := "C05", code := s!"{sh.name}:err_entry_space", detail := showStr o.text })
           else if matching.isEmpty then none
           else if full then (if nsp then none else some { prop := "C05", code := "zsh:full_quote_space", detail := showStr o.text })
-          else if matching.any (fun c => wantsNospace ns c.value == nsp) then none
+          else if matching.any (fun c => nospaceOk ns c.value nsp) then none
           else some { prop := "C05", code := s!"{sh.name}:{if nsp then "nospace_not_wanted" else "space_not_wanted"}", detail := showStr o.text })
 
 /-- C06: messages reach the user; error entries cannot be inserted by accident -/
@@ -410,8 +416,7 @@ def checkC06 (i : FmtInput) (cands : List RawValue) (dec : Decoded) (obs : List 
       (obs.filter (isErrObs i cands)).filterMap (fun o =>
         match o.word with
         | some w =>
-          let w := if i.sh == .ion then Str.trimSuffix w [' '] else w
-          if matchHasPrefix i.env.ci w (dropTCL (typedSegment i)) then none
+          if matchHasPrefix i.env.ci w (dropTCL (typedSegment i)) || (i.sh == .ion && matchHasPrefix i.env.ci (Str.trimSuffix w [' ']) (dropTCL (typedSegment i))) then none
           else some { prop := "C06", code := s!"{i.sh.name}:err_entry_not_extending", detail := showStr w ++ " typed " ++ showStr (typedSegment i) }
         | none => none)
     f1 ++ f2 ++ f3 ++ f4 ++ f5 ++ f6
